@@ -16,10 +16,13 @@ let parse_op (t : string) : op =
   | ["setb"; i; j] -> OSetBuf (nat (ios i), nat (ios j))
   | ["setp"; i; p; n] -> OSetPtr (nat (ios i), parse_ptr p, num n)
   | ["sets"; i; h] -> OSetStr (nat (ios i), bytes_of_hex h)
-  | ["sfs"; i; h] -> OSetFromString (nat (ios i), bytes_of_hex h)
+  | ["sft"; i; h] -> OSetFromString (nat (ios i), bytes_of_hex h)   (* h = the characters of the text *)
+  | ["news"; i; h] -> ONewStr (nat (ios i), bytes_of_hex h)
   | ["srv"; i; off; v; n] -> OSetRangeToValue (nat (ios i), num off, num v, num n)
   | ["sr"; i; off; p; n] -> OSetRange (nat (ios i), num off, parse_ptr p, num n)
   | ["sc"; i; ch; v] -> OSetChannel (nat (ios i), num ch, num v)
+  | ["setraw"; i; j; k; n] -> OSetRaw (nat (ios i), nat (ios j), num k, num n)
+  | ["srraw"; i; off; j; k; n] -> OSetRangeRaw (nat (ios i), num off, nat (ios j), num k, num n)
   | ["htp"; i; j] -> OHTPMerge (nat (ios i), nat (ios j))
   | ["bo"; i] -> OBlackout (nat (ios i))
   | ["rst"; i] -> OReset (nat (ios i))
@@ -80,7 +83,9 @@ let slot_str (s : st) (i : int) : string =
 let eq_str (s : st) : string =
   let b = Buffer.create 16 in
   for i = 0 to nslots - 1 do for j = 0 to nslots - 1 do
-    Buffer.add_string b (match q s (QEq (nat i, nat j)) with ABool true -> "1" | ABool false -> "0" | _ -> "x")
+    Buffer.add_string b (match q s (QEq (nat i, nat j)), q s (QNe (nat i, nat j)) with
+      | ABool e, ABool ne -> if e = ne then "?" else if e then "1" else "0"
+      | _ -> "x")
   done done; Buffer.contents b
 let internal_str (s : st) : string =
   let info = Array.init nslots (fun i -> internals s (nat i)) in
@@ -95,7 +100,7 @@ let internal_str (s : st) : string =
     | Some ((_, cow), rc) -> Printf.sprintf "%s%s%d" (cls i) (if cow then "c" else ".") (int_of_nat rc) in
   String.concat "," (List.init nslots one) ^ "|hb=" ^ string_of_int (int_of_nat (live_blocks s))
 
-let is_mut name = not (List.mem name ["new"; "cpy"; "del"; "asg"])
+let is_mut name = not (List.mem name ["new"; "cpy"; "del"; "asg"; "news"; "newd"])
 let handle (p : string) : string =
   let unfixed = String.length p > 0 && p.[0] = '!' in   (* '!' prefix: run the UNFIXED Set(buffer) model *)
   let p = if unfixed then String.sub p 1 (String.length p - 1) else p in
